@@ -159,6 +159,18 @@ class Workload:
                             yield idx, 'lexeme-sep', self.dialects[0], pos.format(x=x).replace('`', q)
                         idx += 1
 
+        # class 6c: multi-part names written WITHOUT quotes whose parts are not plain words (stars, numbers, quoted parts, blanks around
+        # the dot), in every position that takes a name
+        if self.n_lexeme and self.lexeme_extra:
+            forms = ['t.*', 'a.b.*', '*', 't.1', 'a.1.b', '1.a', 't.`x`', 't."x"', 'a.b.c.d', 'a . b', 't .*', '`a`.*', 't.*.c', '*.a', 't.007', 'a.0x1',
+                     '@v.a', 't.?', 'a.b.c.d.e.f', 't.*.*', 'a..b', '.a', 'a.', 't.1e5', 't.-1', 'a.`b`.*', 'db.t.*', 'x.y.1']
+            for x in forms:
+                for pos in positions:
+                    for d in self.dialects:
+                        if ctx.mine(idx):
+                            yield idx, 'name-form', d, pos.replace('`{x}`', x)
+                        idx += 1
+
         # class 7: grammar-derived sentences of the dialect under test (+ one token-level mutation of some of them)
         if self.n_gram:
             from vf.gen.gramgen import GramGen
